@@ -88,11 +88,13 @@ fn check_header(c: i32, rep: &mut Report) {
 }
 
 /// One-record file whose record content starts with type code `c`.
-fn record_file(c: i32) -> Vec<u8> {
+/// `body` = bytes following the type word: 16 (a Point-sized body) or 0 (the layout of a
+/// NullShape record, which holds nothing but its type word).
+fn record_file_with(c: i32, body: usize) -> Vec<u8> {
     let mut f = header_bytes(if valid(c) { c } else { 1 }).to_vec();
     let content: Vec<u8> = {
         let mut v = c.to_le_bytes().to_vec();
-        v.extend_from_slice(&[0u8; 16]);
+        v.extend(std::iter::repeat(0u8).take(body));
         v
     };
     f.extend_from_slice(&1i32.to_be_bytes());
@@ -103,11 +105,21 @@ fn record_file(c: i32) -> Vec<u8> {
     f
 }
 
+fn record_file(c: i32) -> Vec<u8> {
+    record_file_with(c, 16)
+}
+
 fn check_record(c: i32, rep: &mut Report) {
     if valid(c) {
         return; // content would have to be a well-formed body; C03 covers that
     }
-    let f = record_file(c);
+    for body in [16usize, 0, 8] {
+        check_record_layout(c, body, rep);
+    }
+}
+
+fn check_record_layout(c: i32, body: usize, rep: &mut Report) {
+    let f = record_file_with(c, body);
     // the generic read and a typed read (concrete type rotating with the code) must both
     // refuse the record with the invalid-shape-type error carrying the value
     let typed_as = crate::gen::TYPES[(c as u32 % 13) as usize];
@@ -131,7 +143,7 @@ fn check_record(c: i32, rep: &mut Report) {
         Ok(Err((route, what))) => rep.violation(
             &format!("record-error/{}", route),
             &format!("record:{}", c),
-            J::obj(vec![("code", J::Int(c as i64)), ("route", J::s(route)), ("typed_as", J::s(type_name(typed_as))), ("got", J::s(what))]),
+            J::obj(vec![("code", J::Int(c as i64)), ("route", J::s(route)), ("bytes_after_the_type_word", J::UInt(body as u64)), ("typed_as", J::s(type_name(typed_as))), ("got", J::s(what))]),
         ),
         Err(p) => rep.violation("record-error:panic", &format!("record:{}", c), J::obj(vec![("code", J::Int(c as i64)), ("panic", J::s(p.class()))])),
     }
